@@ -1,4 +1,4 @@
-import RichModel.Lemmas.MarkupDoc
+import RichModel.Lemmas.MarkupEmbed
 /-!
 # C04 — markup styles exactly the tagged regions, and `escape()` neutralises any text
 
@@ -11,6 +11,11 @@ Parameters of every theorem (`cfg : Cfg`): `norm` (= `Style.normalize`, arbitrar
 pending_fixes/C04-markup-span-order.diff).
 
 No bound on the length of any string, the number of tags or the nesting depth anywhere.
+
+Two levels of reference semantics (Model/Markup.lean): `semC` over the *chunks* `_parse` yields
+(every chunk goes through `_emoji_replace` + `strip_control_codes` on its own; offsets are those of
+the replaced text) — valid for any emoji setting and any emoji table; and `sem` over single
+characters, which is what `semC` amounts to when emoji is off (`semC_is_sem`).
 -/
 namespace RichModel.C04
 open RichModel.Markup
@@ -122,10 +127,9 @@ text is the input without its tags and, at every character, the spans covering i
 which is the order `Text.render` applies them, later winning — are exactly the tags open at that
 point, in the order they were opened.
 
-`_partial`: the full statement has no `emoji = none` hypothesis.  With emoji on, each text chunk
-between two tags goes through `_emoji_replace` separately before it is appended; that case is not
-proved (it is covered by the correspondence and the direct evaluation only). -/
-theorem tags_style_exactly_partial (cfg : Cfg) (hE : cfg.emoji = none) (hS : cfg.sortSpans = false)
+Emoji-off corollary in terms of single characters; the statement for any emoji setting is
+`tags_style_exactly` below. -/
+theorem tags_style_exactly_emoji_off (cfg : Cfg) (hE : cfg.emoji = none) (hS : cfg.sortSpans = false)
     (m : List Char) :
     match sem cfg [] (events m) with
     | some ann => ∃ spans, render cfg m = .ok (ann.map Prod.fst, spans) ∧
@@ -139,7 +143,7 @@ theorem doc_events (d : List Piece) (h : ∀ p ∈ d, p.ok) :
     events (d.flatMap Piece.markup) = d.flatMap Piece.evs := events_doc d h
 
 /-- …hence rendered as the reference semantics of their pieces. -/
-theorem tags_style_exactly_doc_partial (cfg : Cfg) (hE : cfg.emoji = none) (hS : cfg.sortSpans = false)
+theorem tags_style_exactly_doc_emoji_off (cfg : Cfg) (hE : cfg.emoji = none) (hS : cfg.sortSpans = false)
     (d : List Piece) (h : ∀ p ∈ d, p.ok) :
     match sem cfg [] (d.flatMap Piece.evs) with
     | some ann => ∃ spans, render cfg (d.flatMap Piece.markup) = .ok (ann.map Prod.fst, spans) ∧
@@ -152,7 +156,7 @@ theorem tags_style_exactly_doc_partial (cfg : Cfg) (hE : cfg.emoji = none) (hS :
 /-- **render_escape_embedded**: `A ++ escape(s) ++ B` renders as the reference semantics of
 (`A`'s events, the characters of `s`, `B`'s events); by `sem_chars` the characters of `s` come out
 verbatim, styled by the tags `A` left open and by nothing of their own. -/
-theorem render_escape_embedded_partial (cfg : Cfg) (hE : cfg.emoji = none) (hS : cfg.sortSpans = false)
+theorem render_escape_embedded_emoji_off (cfg : Cfg) (hE : cfg.emoji = none) (hS : cfg.sortSpans = false)
     (A s B : List Char) (hA : SelfContained A) (hs : SelfContained s) :
     match sem cfg [] (events A ++ s.map Ev.chr ++ events B) with
     | some ann => ∃ spans, render cfg (A ++ escape s ++ B) = .ok (ann.map Prod.fst, spans) ∧
@@ -162,14 +166,155 @@ theorem render_escape_embedded_partial (cfg : Cfg) (hE : cfg.emoji = none) (hS :
   rw [escape_embedded_events A s B hA hs] at this
   exact this
 
+/-! ## full strength: emoji on or off, any emoji table -/
+
+/-- `_parse`'s tuples without their positions are the chunks; forgetting the chunk boundaries gives
+the events (so tags, and the characters before replacement, are the same at both levels). -/
+theorem chunks_are_parse (m : List Char) : (parse m).map PEv.toC = chunks m := parse_toC m
+
+theorem chunks_flatten (m : List Char) : (chunks m).flatMap CEv.evs = events m := chunks_evs m
+
+theorem semC_is_sem (cfg : Cfg) (hE : cfg.emoji = none) (m : List Char) :
+    semC cfg [] (chunks m) = sem cfg [] (events m) := by
+  rw [semC_eq_sem cfg hE, chunks_evs]
+
+/-- **tags_style_exactly**, full strength: EVERY markup string, emoji on or off, any emoji table,
+any `normalize` (repaired span order).  `render` fails exactly when the chunk-level reference
+semantics does; otherwise the plain text is the concatenation of the replaced, stripped chunks and
+at every character of it the covering spans, in list order, are exactly the tags open there, in
+the order they were opened. -/
+theorem tags_style_exactly (cfg : Cfg) (hS : cfg.sortSpans = false) (m : List Char) :
+    match semC cfg [] (chunks m) with
+    | some ann => ∃ spans, render cfg m = .ok (ann.map Prod.fst, spans) ∧
+        ∀ p (h : p < ann.length), effStyles spans p = (ann[p]).2
+    | none => ∃ e, render cfg m = .error e :=
+  render_refinesC cfg hS m
+
+/-- the tokenizer reads a document of the tag grammar piece by piece (escaped leaves become their
+bumped items, every tag one item)… -/
+theorem doc_lex (d : List Piece) (h : ∀ p ∈ d, p.ok) :
+    lex (d.flatMap Piece.markup) = d.flatMap Piece.lx := lex_doc d h
+
+/-- …hence it is rendered as the chunk-level semantics of its pieces, whatever the emoji setting. -/
+theorem tags_style_exactly_doc (cfg : Cfg) (hS : cfg.sortSpans = false) (d : List Piece) (h : ∀ p ∈ d, p.ok) :
+    match semC cfg [] (chunkGo [] (d.flatMap Piece.lx)) with
+    | some ann => ∃ spans, render cfg (d.flatMap Piece.markup) = .ok (ann.map Prod.fst, spans) ∧
+        ∀ p (h : p < ann.length), effStyles spans p = (ann[p]).2
+    | none => ∃ e, render cfg (d.flatMap Piece.markup) = .error e := by
+  have := render_refinesC cfg hS (d.flatMap Piece.markup)
+  rw [chunks_doc d h] at this
+  exact this
+
+/-- **render_escape_embedded**, full strength.  `A ++ escape(s) ++ B` is rendered as: the chunks `A`
+completes; then chunks that are ALL TEXT (no tag ever arises from `s`) and that spell `A`'s
+pending plain text followed by `s`, up to a pending rest `a`; then the chunks of `B` with `a` in
+front of `B`'s first chunk.  (With emoji off chunk boundaries do not matter and this is
+`render_escape_embedded_emoji_off`; with emoji on the theorem says exactly where the boundaries
+fall: at every escaped bracket and run of backslashes.) -/
+theorem render_escape_embedded (cfg : Cfg) (hS : cfg.sortSpans = false)
+    (A s B : List Char) (hA : SelfContained A) (hs : SelfContained s) :
+    let pA := chunkSt [] (lex A)
+    let pS := chunkSt pA.2 ((lex s).map Lx.bump)
+    (∀ c ∈ pS.1, c.isTxt = true) ∧ pS.1.flatMap CEv.text ++ pS.2 = pA.2 ++ s ∧
+    match semC cfg [] (pA.1 ++ pS.1 ++ chunkGo pS.2 (lex B)) with
+    | some ann => ∃ spans, render cfg (A ++ escape s ++ B) = .ok (ann.map Prod.fst, spans) ∧
+        ∀ p (h : p < ann.length), effStyles spans p = (ann[p]).2
+    | none => ∃ e, render cfg (A ++ escape s ++ B) = .error e := by
+  intro pA pS
+  have hb := chunkSt_bump (lex s) pA.2
+  rw [flatten_lex] at hb
+  refine ⟨hb.1, hb.2, ?_⟩
+  have := render_refinesC cfg hS (A ++ escape s ++ B)
+  rw [chunks_embedded A s B hA hs] at this
+  exact this
+
+/-- **render_escape with emoji on, exactly**: for EVERY `s`, any emoji table, either span order,
+`render(escape(s))` never fails and never has a span; its chunks are all text, spell `s`, and the
+result is their replaced, stripped concatenation. -/
+theorem render_escape_emoji_exact (cfg : Cfg) (s : List Char) :
+    (∀ c ∈ chunks (escape s), c.isTxt = true) ∧
+    (chunks (escape s)).flatMap CEv.text = s ∧
+    render cfg (escape s) = .ok ((chunks (escape s)).flatMap (fun c => chunkText cfg c.text), []) :=
+  render_escape_chunks cfg s
+
+/-- …so `s` comes back verbatim (minus BS/VT/FF/CR) with emoji on whenever `s` has no `:name:`
+with `name` in the emoji table. -/
+theorem render_escape_emoji (cfg : Cfg) (s : List Char)
+    (h : ∀ lookup, cfg.emoji = some lookup → NoEmojiCode lookup s) :
+    render cfg (escape s) = .ok (stripControl s, []) :=
+  render_escape_noEmoji cfg s h
+
+/-- a configuration with emoji on and a one-entry table (`a` ↦ 🅰) -/
+def cfgEmoji : Cfg :=
+  { norm := id, isSpace := pyIsSpace, sortSpans := false,
+    emoji := some (fun n => if n = ['a'] then some ['🅰'] else none) }
+
+/-- witness: the hypothesis of `render_escape_emoji` cannot be dropped — `escape` does not protect
+emoji codes: `render(escape(":a:"))` is `🅰`, not `:a:`. -/
+theorem render_escape_emoji_witness :
+    render cfgEmoji (escape ":a:".toList) = .ok (['🅰'], []) ∧ ¬ NoEmojiCode (fun n => if n = ['a'] then some ['🅰'] else none) ":a:".toList := by
+  refine ⟨by decide, ?_⟩
+  intro h
+  have := h [] ['a'] [] rfl
+  simp at this
+
+/-- witness: chunk boundaries matter with emoji on.  In the escaped text the codes on both sides of
+the literal `[a]` are replaced one chunk at a time; and `[b]:[/b]a:` renders to the text `:a:`
+unreplaced, because `:` and `a:` are separate chunks. -/
+theorem render_escape_emoji_chunks_witness :
+    render cfgEmoji (escape ":a:[a]:a:".toList) = .ok ("🅰[a]🅰".toList, []) ∧
+    render cfgEmoji "[b]:[/b]a:".toList = .ok (":a:".toList, [⟨0, 1, "b".toList⟩]) := by
+  decide
+
+/-! ## glue: `Console.render_str` / `Console.print` of strings (highlighting off) -/
+
+/-- with markup disabled (argument `markup=False`, or `None` on a `Console(markup=False)`) the text
+is never interpreted: no span, no error, for every string; with emoji disabled too it is verbatim. -/
+theorem render_str_markup_off (cfg : Cfg) (con : ConsoleFlags) (emoji markup : Option Bool) (text : List Char)
+    (hm : triFlag markup con.markup = false) :
+    ∃ plain, renderStr cfg con emoji markup text = .ok (plain, []) ∧
+      (triFlag emoji con.emoji = false → plain = stripControl text) := by
+  refine ⟨chunkText { cfg with emoji := if triFlag emoji con.emoji then cfg.emoji else none } text,
+    by simp [renderStr, hm], ?_⟩
+  intro he
+  simp [chunkText, he]
+
+/-- with markup enabled `render_str` is `markup.render` with the emoji flag resolved the same way -/
+theorem render_str_markup_on (cfg : Cfg) (con : ConsoleFlags) (emoji markup : Option Bool) (text : List Char)
+    (hm : triFlag markup con.markup = true) :
+    renderStr cfg con emoji markup text =
+      render { cfg with emoji := if triFlag emoji con.emoji then cfg.emoji else none } text := by
+  simp [renderStr, hm]
+
+/-- an explicit argument always wins over the console default; `None` defers to it -/
+theorem triFlag_spec (dflt : Bool) :
+    triFlag (some true) dflt = true ∧ triFlag (some false) dflt = false ∧ triFlag none dflt = dflt :=
+  ⟨rfl, rfl, rfl⟩
+
+/-- `console.print(escape(s))`, whatever the flags: `s` is shown verbatim, styled by nothing but
+the empty style `join` puts over every piece — provided `s` has no emoji code of the table. -/
+theorem print_escape (cfg : Cfg) (con : ConsoleFlags) (emoji : Option Bool) (sep s : List Char)
+    (h : ∀ lookup, cfg.emoji = some lookup → NoEmojiCode lookup s) :
+    printStrs cfg con emoji (some true) sep [escape s] =
+      .ok (stripControl s, [⟨0, (stripControl s).length, []⟩]) := by
+  have hr : renderStr cfg con emoji (some true) (escape s) = .ok (stripControl s, []) := by
+    rw [render_str_markup_on cfg con emoji (some true) _ rfl]
+    apply render_escape_noEmoji
+    intro lookup hl
+    by_cases he : triFlag emoji con.emoji = true
+    · simp only [he, if_true] at hl; exact h lookup hl
+    · simp [he] at hl
+  simp [printStrs, List.mapM_cons, hr, joinRendered, pure, Except.pure, bind, Except.bind]
+
 /-! ## MarkupError -/
 
 /-- **error_iff_nothing_to_close**, both span orders: `render` raises `MarkupError` exactly when
 some closing tag, at the moment it is reached, has nothing to close (`[/name]` with no open tag of
-that normalized name, `[/]` with no open tag at all).  `_partial`: emoji off (see above). -/
-theorem error_iff_nothing_to_close_partial (cfg : Cfg) (hE : cfg.emoji = none) (m : List Char) :
-    (∃ e, render cfg m = .error e) ↔ NothingToClose cfg [] (events m) := by
-  rw [render_error_iff_sem cfg hE m, sem_none_iff]
+that normalized name, `[/]` with no open tag at all).  Any emoji setting, any emoji table: whether
+`render` fails depends on the tags only. -/
+theorem error_iff_nothing_to_close (cfg : Cfg) (m : List Char) :
+    (∃ e, render cfg m = .error e) ↔ NothingToClose cfg [] (events m) :=
+  render_error_iff cfg m
 
 /-! ## rich 9.10.0 as found (before fix 623ba68): `sorted(spans)` breaks the precedence (pre-finding F8) -/
 
